@@ -2,6 +2,7 @@
 from lib import cfg
 from rules import common
 
+CRATES = ("agdb",)
 EXPLANATION = (
     "Static analysis of Storage<D>: reopening rebuilds the record table from on-disk headers, so (R04a) every function "
     "that mutates the in-memory record table must, on every success path, also write the corresponding on-disk header "
